@@ -211,9 +211,8 @@ package processorqueue
 //@ ghost func pStr(m map[string]streamtypes.ProcessorParam, name string) string = m[name].Value.GetString()
 //@ ghost func pInt64(m map[string]streamtypes.ProcessorParam, name string) int64 = m[name].Value.GetInt()
 //@ ghost func pSeconds(m map[string]streamtypes.ProcessorParam, name string) int64 = m[name].Value.GetInt()
-//@ extern utils.ExtractMapOfInt64Param
-//@   params metaData, paramName, out
-//@   modifies mapof(out)
+//@ pure ParamValue.GetMapOfInt
+//@ ghost func pGroups(m map[string]streamtypes.ProcessorParam, name string) map[string]int = m[name].Value.GetMapOfInt()
 //@ iface SharedStateI.Set
 //@   modifies now
 //@ extern queueProcessor).validateProcessingTimeoutIsGreaterTheTTL
@@ -227,4 +226,6 @@ package processorqueue
 //@   modifies p.quotaID, p.groupByHeader, p.maxQueueSize, p.maxRedisQueueSize, p.queueTTL, p.logger, mapof(p.groups), now
 //@   ensures[queue-size-is-the-configured-one] result == nil ==> p.maxQueueSize == pInt64(p.metaData.Parameters, "queue_size")
 //@   ensures[ttl-is-the-configured-one] result == nil ==> p.queueTTL == pSeconds(p.metaData.Parameters, "ttl_seconds") * 1000000000
+//@   ensures[priorities-are-the-configured-ones] result == nil ==> forall(g, string, in(g, pGroups(p.metaData.Parameters, "priority_groups")) ==> in(g, p.groups) && p.groups[g] == pGroups(p.metaData.Parameters, "priority_groups")[g])
+//@   ensures[no-other-group-gets-a-priority] result == nil ==> forall(g, string, !in(g, pGroups(p.metaData.Parameters, "priority_groups")) ==> (in(g, p.groups) <==> old(in(g, p.groups))))
 //@   ensures[own-quota-and-priority-header] result == nil ==> p.quotaID == pStr(p.metaData.Parameters, "quota_id") && p.groupByHeader == pStr(p.metaData.Parameters, "priority_group_by_header") && p.maxRedisQueueSize == pInt64(p.metaData.Parameters, "redis_queue_size")
